@@ -9,9 +9,9 @@
   The accelerated amd64 path is covered at the level of the regenerated assembler listings, run by the value
   semantics of SMGo/Model/ISAVal.lean (section "Assembly listings" at the end of this file): `cryptoBlockAsm` and
   `expandKeyAsm` — the only two routines Encrypt/Decrypt/NewCipher use on amd64 — are proved equal to the
-  specification for all inputs (`asm_cryptoBlockAsm_eq_spec`, `asm_expandKeyAsm_eq_spec`, `C05_asm_amd64`); the wide
-  kernels X2/X4/X8/X16 have their 32 rounds proved on every lane (`asm_rounds_all_lanes`) but their prologue /
-  epilogue (rev32 per lane, 4×4 transposes, stores) only tested; the harness compares all of them three-way
+  specification for all inputs (`asm_cryptoBlockAsm_eq_spec`, `asm_expandKeyAsm_eq_spec`, `C05_asm_amd64`), and so
+  are the four wide kernels X2/X4/X8/X16 — prologue, 32 rounds on every lane, epilogue — on 2/4/8/16 blocks
+  (`asm_cryptoBlockAsmX2_eq_spec` … `asm_cryptoBlockAsmX16_eq_spec`); the harness compares all of them three-way
   (CPU / interpreted listing / specification).  The arm64 kernels are compared by the harness only.
   The table facts of property C18
   (S-box = algebraic S-box, T-tables = L ∘ S-box, CK/FK formulas) are restated below; they are
@@ -27,6 +27,7 @@ import SMGo.Proofs.SM4Inverse
 import SMGo.Proofs.ISAValSpec
 import SMGo.Proofs.ISAValExpandSpec
 import SMGo.Proofs.ISAValRoundL
+import SMGo.Proofs.ISAValWideX2Spec
 import SMGo.Proofs.ISAValTests
 namespace SMGo.Props.C05
 open SMGo
@@ -362,8 +363,8 @@ open Model.ISAVal Proofs.ISAVal in
 /-- **the 32 `subRound` blocks at any vector length (X, Y or Z registers) compute 32 SM4 rounds on every dword
     lane**: from a state whose state registers carry, in dword lane `j`, the window `X j`, running the 544
     instructions `roundsCodeL vl 32` leaves in lane `j` the window after 32 rounds with the round keys read from
-    memory (`iterN`; `stepN` is `Spec.SM4.roundStep` on numbers, `toW_stepN`).  This is the part of the wide kernels
-    cryptoBlockAsmX2/X4/X8/X16 that is proved in general … -/
+    memory (`iterN`; `stepN` is `Spec.SM4.roundStep` on numbers, `toW_stepN`).  This is the middle part of the wide kernels
+    cryptoBlockAsmX2/X4/X8/X16 (their full statements follow) … -/
 theorem asm_rounds_all_lanes (vl : Nat) (hvl : validVl vl = true) (mem : List Region) (syms frame : List (String × Nat))
     (rkBase dstp shuf : Nat) (kb : Nat → List Nat) (hbase : rkBase + 4 * 32 < 2 ^ 64)
     (hrk : ∀ i, i < 32 → readMem mem (rkBase + 4 * i) 4 = .ok (kb i))
@@ -383,12 +384,58 @@ theorem asm_wide_kernels_rounds :
     ∧ decodedSlice Gen.ListAmd64Asm.cryptoBlockAsmX16 25 544 = some (roundsCodeL 64 32) :=
   wide_kernels_rounds
 
-/- NOT proved in general for cryptoBlockAsmX2/X4/X8/X16 (only tested above and, on every check, compared with the CPU
-   and the specification by the harness; on amd64 these four are reached only from tests: Encrypt/Decrypt use
-   cryptoBlockAsm, GCM uses its own fused routine): their prologue (vector loads, `rev32` on every 128-bit lane, the
-   4×4 dword transpose that puts word k of block b into lane b of state register k) and their epilogue (the
-   transpose back, `rev32`, four stores).  The lemmas that exist for one 128-bit lane (`x_rev32`, `x_unpck*`) and what
-   a general proof still needs are listed at the end of SMGo/Proofs/ISAValSpec.lean. -/
+open Model.ISAVal Proofs.ISAVal in
+/-- `cryptBlocks rk src n` = the first `n` 16-byte blocks of `src`, each through the block function of the
+    specification, one after the other -/
+theorem asm_cryptBlocks_def (rk src : List Nat) (n : Nat) :
+    cryptBlocks rk src n = (List.range n).flatMap (fun β =>
+      (Spec.SM4.crypt (rk.map (BitVec.ofNat 32)) ((((src.drop (16 * β)).take 16)).map UInt8.ofNat)).map (·.toNat)) := rfl
+
+open Model.ISAVal Proofs.ISAVal in
+/-- **the listing of `cryptoBlockAsmX2` computes the block function of the specification on each of its two blocks**:
+    for all 32 round keys, every 32-byte input, whatever the registers and the destination hold at entry.
+    (Prologue: two loads, `rev32`, the partial transposition that puts the words of block b into dword lane b
+    of V6..V9 — lanes 2, 3 carry by-products that the epilogue drops; 32 rounds by `asm_rounds_all_lanes`;
+    epilogue: gather, `rev32`, two stores.) -/
+theorem asm_cryptoBlockAsmX2_eq_spec (g v k rk dst0 src : List Nat)
+    (hg : g.length = 16) (hv : v.length = 32) (hrk : rk.length = 32) (hrkb : ∀ x ∈ rk, x < 2 ^ 32)
+    (hsrc : src.length = 32) (hsb : ∀ x ∈ src, x < 2 ^ 8) (hdst : dst0.length = 32) :
+    runDst Gen.ListAmd64Asm.cryptoBlockAsmX2 2000 (kernelState g v k rk dst0 src) = .ok (cryptBlocks rk src 2) :=
+  kernelX2_eq_spec g v k rk dst0 src hg hv hrk hrkb hsrc hsb hdst
+
+open Model.ISAVal Proofs.ISAVal in
+/-- **the same for `cryptoBlockAsmX4`** (four blocks, X registers).  The three kernels X4/X8/X16 are one scheme
+    `wideCode vl` at vector length 16/32/64 (`wide_decode`, by evaluation): prologue = constants, four vector
+    loads, `rev32` of every dword, the 4×4 dword transposition on every 128-bit lane (after which dword lane `j` of
+    the state register k holds word k of block `(vl/16)·(j mod 4) + j/4`, `wpro_spec`); 32 rounds on every lane
+    (`asm_rounds_all_lanes`); epilogue = transposition back with the registers in reverse order, `rev32`, four
+    stores (`wepi_spec`). -/
+theorem asm_cryptoBlockAsmX4_eq_spec (g v k rk dst0 src : List Nat)
+    (hg : g.length = 16) (hv : v.length = 32) (hrk : rk.length = 32) (hrkb : ∀ x ∈ rk, x < 2 ^ 32)
+    (hsrc : src.length = 64) (hsb : ∀ x ∈ src, x < 2 ^ 8) (hdst : dst0.length = 64) :
+    runDst Gen.ListAmd64Asm.cryptoBlockAsmX4 2000 (kernelState g v k rk dst0 src) = .ok (cryptBlocks rk src 4) :=
+  kernelX4_eq_spec g v k rk dst0 src hg hv hrk hrkb hsrc hsb hdst
+
+open Model.ISAVal Proofs.ISAVal in
+/-- **the same for `cryptoBlockAsmX8`** (eight blocks, Y registers) -/
+theorem asm_cryptoBlockAsmX8_eq_spec (g v k rk dst0 src : List Nat)
+    (hg : g.length = 16) (hv : v.length = 32) (hrk : rk.length = 32) (hrkb : ∀ x ∈ rk, x < 2 ^ 32)
+    (hsrc : src.length = 128) (hsb : ∀ x ∈ src, x < 2 ^ 8) (hdst : dst0.length = 128) :
+    runDst Gen.ListAmd64Asm.cryptoBlockAsmX8 2000 (kernelState g v k rk dst0 src) = .ok (cryptBlocks rk src 8) :=
+  kernelX8_eq_spec g v k rk dst0 src hg hv hrk hrkb hsrc hsb hdst
+
+open Model.ISAVal Proofs.ISAVal in
+/-- **the same for `cryptoBlockAsmX16`** (sixteen blocks, Z registers) -/
+theorem asm_cryptoBlockAsmX16_eq_spec (g v k rk dst0 src : List Nat)
+    (hg : g.length = 16) (hv : v.length = 32) (hrk : rk.length = 32) (hrkb : ∀ x ∈ rk, x < 2 ^ 32)
+    (hsrc : src.length = 256) (hsb : ∀ x ∈ src, x < 2 ^ 8) (hdst : dst0.length = 256) :
+    runDst Gen.ListAmd64Asm.cryptoBlockAsmX16 2000 (kernelState g v k rk dst0 src) = .ok (cryptBlocks rk src 16) :=
+  kernelX16_eq_spec g v k rk dst0 src hg hv hrk hrkb hsrc hsb hdst
+
+/- Scope of the four theorems above: `dst` and `src` disjoint buffers of exactly n·16 bytes (the in-place call
+   `dst == src` is proved for `cryptoBlockAsm` only); on amd64 the wide kernels are reached only from tests
+   (Encrypt/Decrypt use cryptoBlockAsm, GCM uses its own fused routine, see Props/C06Asm.lean and the harness).
+   The instruction semantics are the trusted reading of the SDM, compared with the CPU on every check. -/
 
 end SMGo.Props.C05
 
@@ -418,6 +465,11 @@ end SMGo.Props.C05
 #print axioms SMGo.Props.C05.asm_test_X1_standard
 #print axioms SMGo.Props.C05.asm_test_X1_inplace
 #print axioms SMGo.Props.C05.asm_test_X2_X4_X8_X16
+#print axioms SMGo.Props.C05.asm_cryptBlocks_def
+#print axioms SMGo.Props.C05.asm_cryptoBlockAsmX2_eq_spec
+#print axioms SMGo.Props.C05.asm_cryptoBlockAsmX4_eq_spec
+#print axioms SMGo.Props.C05.asm_cryptoBlockAsmX8_eq_spec
+#print axioms SMGo.Props.C05.asm_cryptoBlockAsmX16_eq_spec
 #print axioms SMGo.Props.C05.asm_test_expandKey
 #print axioms SMGo.Props.C05.asm_cryptoBlockAsm_inplace_eq_spec
 #print axioms SMGo.Props.C05.asm_expandKeyAsm_eq_spec
